@@ -39,6 +39,12 @@ def is_subsequence(a, b):
     return all(x in it for x in a)
 
 
+def _re_fin(digest, side):
+    import re
+    m = re.search(r"\b%s count=\d+ fin=(\d)" % side, digest)
+    return bool(m) and m.group(1) == "1"
+
+
 def transcript_oracles(prop, ops, outs, rp, res):
     """model-free checks on one op-level run; `rp` is the RandomProgram (for callback logs / alias events)"""
     sent, recvd, api, chans = parse_transcript(ops, outs)
@@ -160,6 +166,31 @@ def transcript_oracles(prop, ops, outs, rp, res):
             want = 1 if (kind == "rexec" or side == "A") else 0
             if cid % 2 != want:
                 res.violations.append(dict(case=case, what=f"id {cid} allocated by side {side if kind != 'rexec' else 'A'} has the wrong parity"))
+    if prop in ("C02", "C10") and getattr(rp, "digest", None):
+        # no loss, model-free: every frame has been delivered (both pipes empty, nobody finished), side S registered a callback
+        # on the conversation and never closed it itself, no callback failed: then what S obtained (receive before the
+        # callback + the callback's log) is exactly what the peer sent successfully — also when S dropped its channel object
+        # after setcallback (the callback lives on)
+        import re as _re3
+        if rp.digest.count("out=") == 2 and all(m.group(1) == "-" for m in _re3.finditer(r"\bout=(\S+)", rp.digest)) and "fin=1" not in rp.digest:
+            for (side, cid), calls in api.items():
+                if (side, cid) in aliased or (peer[side], cid) in aliased:
+                    continue
+                names = [nm for nm, _a, _o in calls]
+                if not any(nm == "setcb" and o == "ok" for nm, _a, o in calls) or "close" in names:
+                    continue
+                if side == "B" and any(op.split()[0] == "finish" and int(op.split()[1]) == cid for op in ops):
+                    continue  # the end of the body closes the worker's own channel: later items of the initiator are refused
+                if "drop" in names and names.index("drop") < min(i for i, (nm, _a, o) in enumerate(calls) if nm == "setcb" and o == "ok"):
+                    continue
+                src = sent.get((peer[side], cid), [])
+                if any(v % 100 == 99 for v in src):
+                    continue
+                cb_items = [int(e[1:].split(":")[0]) for e in rp.cblog_final[side].get(cid, []) if e.startswith("i")]
+                got = recvd.get((side, cid), []) + cb_items
+                if got != src:
+                    res.violations.append(dict(case=case, what=f"items lost on {(side, cid)}: every frame was delivered and the side kept its callback, "
+                                                               f"but it obtained {got} of the {src} the peer sent"))
     if prop in ("C10", "C18") and getattr(rp, "digest", None):
         # a conversation that the peer has ended (close / end of the body / drop) and whose frames have all been delivered:
         # a callback registered with an endmarker has got it, and the callback table has forgotten the id
@@ -195,6 +226,11 @@ def transcript_oracles(prop, ops, outs, rp, res):
             t = op.split()
             if t[0] == "drop" and out == "ok" and int(t[2]) not in travelled and int(t[2]) in regs.get(t[1], ()):
                 res.violations.append(dict(case=case, what=f"channel {t[2]} still in side {t[1]}'s channel table although its last reference was dropped"))
+    if prop == "C07" and getattr(rp, "digest", None) and not any(op.startswith("cut ") for op in ops):
+        # "the gateway connection itself stays up": without a connection loss in the program neither receiver thread ends
+        for side_ in "AB":
+            if ("%s count=" % side_) in rp.digest and _re_fin(rp.digest, side_):
+                res.violations.append(dict(case=case, what=f"the receiver thread of side {side_} ended although the connection was never cut (a failure on one channel took the gateway down)"))
     if prop == "C07":
         # a RemoteError for one channel never shows up on another: every RemoteError id must stem from an op on that id
         for key, calls in api.items():
